@@ -152,7 +152,7 @@ Sig(k) == "G01/" \o k.op \o "/" \o ShapeStr(k.ls)
 CaseJson(k) ==
   LET res == Result(k) IN
   [op |-> k.op, ar |-> Arity(k.op), ls |-> k.ls, rs |-> k.rs, ts |-> k.ts, fill |-> k.fill, ra |-> k.ra, rb |-> k.rb,
-   A |-> LOp(k), B |-> ROp(k), C |-> TOp(k),
+   A |-> LOp(k), B |-> ROp(k), C |-> TOp(k), At |-> Transpose(LOp(k)), Bt |-> Transpose(ROp(k)),
    exp |-> Expect(k), sig |-> Sig(k),
    res |-> [sc |-> res.sc, r |-> res.m.r, c |-> res.m.c, q |-> res.m.q, d |-> res.m.d]]
 
